@@ -1,4 +1,4 @@
-import Cjet.Lemmas.DaemonC04Spec
+import Cjet.Lemmas.DaemonC04Examples
 
 /-!
 # C04 — element namespace: unique paths, owner-only mutation, state/method typing
@@ -44,10 +44,12 @@ theorem wf_parseJsonRpc (cfg : Config) (x : Ctx) (c : Nat) (req : Json) (h : WF 
     WF (parseJsonRpc cfg x c req).1.st :=
   (wf_iff_wfs _).2 (parseJsonRpc_own cfg x c req ((wf_iff_wfs _).1 h)).wfs
 
-example : WF (run {} {} [.connect 1 false true [0x61],
-    .message 1 (some (.obj [(k "method", .str (k "add")),
-      (k "params", .obj [(k "path", .str [0x70]), (k "value", .null)])])) {}]).1 :=
-  wf_invariant {} [] _
+/-- non-vacuity for `wf_step`, `wf_run`, `wf_parseJsonRpc`: well-formed states exist, e.g. the initial
+    one and `exS` (three peers, peer 1 owning a state and a method, peer 2 a fetch-only state) -/
+example : WF ({ users := [] } : State) ∧ WF exS ∧ WF (mkCtx exS {}).st ∧
+    (absElems exS).map (·.1) = [[0x73], [0x6d], [0x66]] ∧
+    (absElems exS).map (·.2.owner) = [1, 1, 2] :=
+  ⟨wf_init [], exS_wf, exS_wf, by decide +kernel, by decide +kernel⟩
 
 /-! ## 2. the abstraction and `element_table_get` -/
 
@@ -63,8 +65,7 @@ theorem findElement_iff_abs {s : State} (h : WF s) (path : Bytes) :
   rw [findElement_eq_some_iff hs]
   simp only [allElems, List.mem_flatMap]
 
-example : WF ({ peers := [{ conn := 1, ws := false, isLocal := true, addrTok := [] }] } : State) :=
-  wf_step {} {} (.connect 1 false true []) (wf_init [])
+example : WF exS ∧ ((findElement exS [0x73]).map (·.owner)) = some 1 := ⟨exS_wf, by decide +kernel⟩
 
 /-! ## 6. an error answer means nothing changed -/
 
@@ -86,6 +87,13 @@ theorem error_means_unchanged (cfg : Config) (x : Ctx) (c : Nat) (req : Json) (h
     rw [this] at hj
     cases hj
 
+/-- non-vacuity: removing an unknown path in `exS` is answered with an error object -/
+example : ∃ new, WF (mkCtx exS {}).st ∧
+    (parseJsonRpc {} (mkCtx exS {}) 1 (mkReq "remove" [0x75])).1.out = new ++ (mkCtx exS {}).out ∧
+    ∃ c' j b, Obs.send c' j b ∈ new ∧ (j.getItem (k "error")).isSome = true :=
+  ⟨(parseJsonRpc {} (mkCtx exS {}) 1 (mkReq "remove" [0x75])).1.out, exS_wf,
+   by simp only [mkCtx, List.append_nil], exists_errSend_of_any (by decide +kernel)⟩
+
 /-- Handler level, covering requests that cannot be answered (no id, or an id that is neither
     string nor number): the abstraction changes only if the handler's answer is the success answer
     (which is "no answer" for such requests) — every refusal leaves it unchanged. -/
@@ -96,6 +104,32 @@ theorem refused_means_unchanged (cfg : Config) (x : Ctx) (c : Nat) (p : Peer) (r
   rcases handleMethod_eff (cfg := cfg) (req := req) m hp ((wf_iff_wfs _).1 hwf) with h | ⟨_, h, _⟩
   · exact absElems_of_store_eq h
   · exact absurd h hne
+
+/-- non-vacuity: a refused `remove` (its answer carries an "error" member, the success answer does not) -/
+example : ∃ p, WF (mkCtx exS {}).st ∧ findPeer (mkCtx exS {}).st.peers 1 = some p ∧
+    (handleMethod {} (mkCtx exS {}) p (mkReq "remove" [0x75]) (k "remove")).2 ≠
+      successFromRequest (mkReq "remove" [0x75]) := by
+  obtain ⟨p, hp⟩ := exists_of_isSome (o := findPeer (mkCtx exS {}).st.peers 1) (by decide +kernel)
+  refine ⟨p, exS_wf, hp, ?_⟩
+  intro h
+  obtain ⟨j, hj, hje⟩ := successFromRequest_isSome (mkReq_answerable "remove" [0x75])
+  rw [handleMethod_remove, removeElementReq] at h
+  simp only [getParamsAndPath_ok (mkReq_params _ _) (mkParams_path _)] at h
+  split at h
+  · rename_i e he
+    have : (p.elements.find? (·.path == [0x75])).isSome = true := by rw [he]; rfl
+    have h2 : ((findPeer (mkCtx exS {}).st.peers 1).bind (·.elements.find? (·.path == [0x75]))).isSome = false := by
+      decide +kernel
+    rw [hp] at h2
+    simp only [Option.bind_some] at h2
+    rw [h2] at this; cases this
+  · simp only at h
+    obtain ⟨je, hje1, hje2⟩ := errorFromRequest_isSome (mkReq_answerable "remove" [0x75]) INVALID_PARAMS "not exists" [0x75]
+    rw [hje1, hj] at h
+    have := Option.some.inj h
+    subst this
+    simp only [hasError, hje] at hje2
+    cases hje2
 
 /-- set and call — refused, routed or failed — never change the abstraction -/
 theorem set_call_unchanged (cfg : Config) (x : Ctx) (c : Nat) (req : Json) (m : Bytes)
@@ -109,6 +143,9 @@ theorem set_call_unchanged (cfg : Config) (x : Ctx) (c : Nat) (req : Json) (m : 
     rcases hsc with rfl | rfl
     · rw [handleMethod_set]; exact absElems_of_store_eq (setOrCall_frame ..)
     · rw [handleMethod_call]; exact absElems_of_store_eq (setOrCall_frame ..)
+
+example : (mkReq "set" [0x73]).getItem (k "method") = some (.str (k "set")) ∧ (k "set" = k "set" ∨ k "set" = k "call") :=
+  ⟨mkReq_method _ _, Or.inl rfl⟩
 
 /-! ## 3. add -/
 
@@ -204,6 +241,27 @@ theorem add_spec (cfg : Config) (x : Ctx) (c : Nat) (p : Peer) (req params : Jso
     refine ⟨?_, by rw [hf.2.1]⟩
     rw [← hf.1]; exact answered_sendResponse _ _ _
 
+/-- non-vacuity: a well-formed add of the free path "n" by peer 3 in `exS` (success branch), of the
+    taken path "s" (exists branch), and with a refusing index (resource branch) -/
+example : ∃ (p : Peer) (tns : Nat) (g : Nat × Nat × Nat),
+    WF (mkCtx exS {}).st ∧ findPeer (mkCtx exS {}).st.peers 3 = some p ∧
+    (mkReq "add" [0x6e]).getItem (k "method") = some (.str (k "add")) ∧
+    (mkReq "add" [0x6e]).getItem (k "params") = some (mkParams [0x6e]) ∧
+    (mkParams [0x6e]).getItem (k "path") = some (.str [0x6e]) ∧
+    (({} : Config).localOnlyAdd && !p.isLocal) = false ∧
+    fetchOnlyOk ((mkParams [0x6e]).getItem (k "fetchOnly")) = true ∧
+    getTimeout {} ((mkParams [0x6e]).getItem (k "timeout")) ({} : Config).defaultTimeoutNs = .ns tns ∧
+    fillAccess {} ((mkParams [0x6e]).getItem (k "value")).isSome ((mkParams [0x6e]).getItem (k "access")) = .ok g ∧
+    absGet (mkCtx exS {}).st [0x6e] = none ∧ (mkCtx exS {}).indexFull = false ∧
+    (absGet (mkCtx exS {}).st [0x73]).isSome = true ∧
+    (mkCtx exS { indexFull := true }).indexFull = true := by
+  obtain ⟨p, hp⟩ := exists_of_isSome (o := findPeer (mkCtx exS {}).st.peers 3) (by decide +kernel)
+  refine ⟨p, 5000000000, (0, 0, 0), exS_wf, hp, mkReq_method _ _, mkReq_params _ _, mkParams_path _, rfl, ?_, ?_, ?_,
+    eq_none_of_isNone (by decide +kernel), rfl, by decide +kernel, rfl⟩
+  · rw [mkParams_fetchOnly]; rfl
+  · rw [mkParams_timeout]; rfl
+  · rw [mkParams_value, mkParams_access]; rfl
+
 /-! ## 4. remove and change -/
 
 /-- `remove` succeeds exactly for an element owned by the requester, removes exactly that element
@@ -260,6 +318,32 @@ theorem remove_spec (cfg : Config) (x : Ctx) (c : Nat) (p : Peer) (req params : 
         · cases h2
     · intro hall
       exact absurd hown (hall _ hget)
+
+/-- non-vacuity: peer 1 removes its own "s" (success branch); peer 3 tries the same and an unknown
+    path (refusal branch) -/
+example : ∃ (p p3 : Peer) (i : ElemInfo),
+    WF (mkCtx exS {}).st ∧ findPeer (mkCtx exS {}).st.peers 1 = some p ∧
+    findPeer (mkCtx exS {}).st.peers 3 = some p3 ∧
+    (mkReq "remove" [0x73]).getItem (k "method") = some (.str (k "remove")) ∧
+    (mkReq "remove" [0x73]).getItem (k "params") = some (mkParams [0x73]) ∧
+    (mkParams [0x73]).getItem (k "path") = some (.str [0x73]) ∧
+    absGet (mkCtx exS {}).st [0x73] = some i ∧ i.owner = 1 ∧
+    (∀ i, absGet (mkCtx exS {}).st [0x73] = some i → i.owner ≠ 3) ∧
+    (∀ i, absGet (mkCtx exS {}).st [0x75] = some i → i.owner ≠ 3) := by
+  obtain ⟨p, hp⟩ := exists_of_isSome (o := findPeer (mkCtx exS {}).st.peers 1) (by decide +kernel)
+  obtain ⟨p3, hp3⟩ := exists_of_isSome (o := findPeer (mkCtx exS {}).st.peers 3) (by decide +kernel)
+  obtain ⟨i, hi⟩ := exists_of_isSome (o := absGet (mkCtx exS {}).st [0x73]) (by decide +kernel)
+  have hown : (absGet (mkCtx exS {}).st [0x73]).map (·.owner) = some 1 := by decide +kernel
+  rw [hi] at hown
+  have hown : i.owner = 1 := Option.some.inj hown
+  refine ⟨p, p3, i, exS_wf, hp, hp3, mkReq_method _ _, mkReq_params _ _, mkParams_path _, hi, hown, ?_, ?_⟩
+  · intro i' hi'
+    rw [hi] at hi'
+    rw [← Option.some.inj hi', hown]
+    decide
+  · intro i' hi'
+    have : absGet (mkCtx exS {}).st [0x75] = none := eq_none_of_isNone (by decide +kernel)
+    rw [this] at hi'; cases hi'
 
 /-- `change` succeeds only for the owner, only for a state, only with a value member; it then
     replaces exactly that element's value and nothing else (path, owner, flags of the element and
@@ -377,6 +461,34 @@ theorem change_spec (cfg : Config) (x : Ctx) (c : Nat) (p : Peer) (req params : 
       simp only [hc, h1, h2, Bool.false_eq_true, ↓reduceIte]
       exact refused_sendResponse _ _ _
 
+/-- non-vacuity: peer 1 changes its state "s" (success); changes its method "m" (refused); peer 3
+    changes "s" (not owner); an unknown path; a request without value member -/
+example : ∃ (p : Peer) (i im : ElemInfo),
+    WF (mkCtx exS {}).st ∧ findPeer (mkCtx exS {}).st.peers 1 = some p ∧
+    (mkReq "change" [0x73]).getItem (k "method") = some (.str (k "change")) ∧
+    (mkReq "change" [0x73]).getItem (k "params") = some (mkParams [0x73]) ∧
+    (mkParams [0x73]).getItem (k "path") = some (.str [0x73]) ∧
+    (mkParams [0x73]).getItem (k "value") = some .null ∧
+    absGet (mkCtx exS {}).st [0x73] = some i ∧ i.owner = 1 ∧ i.owner ≠ 3 ∧ i.value.isSome = true ∧
+    absGet (mkCtx exS {}).st [0x6d] = some im ∧ im.owner = 1 ∧ im.value = none ∧
+    absGet (mkCtx exS {}).st [0x75] = none ∧
+    (Json.obj [(k "path", .str [0x73])]).getItem (k "value") = none := by
+  obtain ⟨p, hp⟩ := exists_of_isSome (o := findPeer (mkCtx exS {}).st.peers 1) (by decide +kernel)
+  obtain ⟨i, hi⟩ := exists_of_isSome (o := absGet (mkCtx exS {}).st [0x73]) (by decide +kernel)
+  obtain ⟨im, him⟩ := exists_of_isSome (o := absGet (mkCtx exS {}).st [0x6d]) (by decide +kernel)
+  have h1 : (absGet (mkCtx exS {}).st [0x73]).map (·.owner) = some 1 := by decide +kernel
+  have h2 : (absGet (mkCtx exS {}).st [0x73]).map (·.value.isSome) = some true := by decide +kernel
+  have h3 : (absGet (mkCtx exS {}).st [0x6d]).map (·.owner) = some 1 := by decide +kernel
+  have h4 : (absGet (mkCtx exS {}).st [0x6d]).map (·.value.isNone) = some true := by decide +kernel
+  rw [hi] at h1 h2
+  rw [him] at h3 h4
+  have h1 : i.owner = 1 := Option.some.inj h1
+  have h4 : im.value.isNone = true := Option.some.inj h4
+  refine ⟨p, i, im, exS_wf, hp, mkReq_method _ _, mkReq_params _ _, mkParams_path _, mkParams_value _, hi, h1,
+    by rw [h1]; decide, Option.some.inj h2, him, Option.some.inj h3, eq_none_of_isNone h4,
+    eq_none_of_isNone (by decide +kernel), ?_⟩
+  exact (getItem_cons_ne keyEq_path_value _ _).trans rfl
+
 /-! ## 5. set / call refusals -/
 
 /-- set (`isState = true`) resp. call (`isState = false`) on an unknown path, on a fetch-only
@@ -434,6 +546,36 @@ theorem set_call_refusals (cfg : Config) (x : Ctx) (c : Nat) (p : Peer) (req par
       simp only [h1, Bool.false_eq_true, ↓reduceIte, h2]
       exact refused_sendResponse _ _ _
 
+/-- non-vacuity: set on an unknown path, on the fetch-only state "f", on the method "m"; call on the
+    state "s" -/
+example : ∃ (p : Peer) (i_f im is : ElemInfo),
+    findPeer (mkCtx exS {}).st.peers 3 = some p ∧ WF (mkCtx exS {}).st ∧
+    (mkReq "set" [0x6d]).getItem (k "method") = some (.str (if true then k "set" else k "call")) ∧
+    (mkReq "call" [0x73]).getItem (k "method") = some (.str (if false then k "set" else k "call")) ∧
+    (mkReq "set" [0x6d]).getItem (k "params") = some (mkParams [0x6d]) ∧
+    (mkParams [0x6d]).getItem (k "path") = some (.str [0x6d]) ∧
+    absGet (mkCtx exS {}).st [0x75] = none ∧
+    absGet (mkCtx exS {}).st [0x66] = some i_f ∧ i_f.fetchOnly = true ∧
+    absGet (mkCtx exS {}).st [0x6d] = some im ∧ im.fetchOnly = false ∧ im.value.isSome ≠ true ∧
+    absGet (mkCtx exS {}).st [0x73] = some is ∧ is.fetchOnly = false ∧ is.value.isSome ≠ false := by
+  obtain ⟨p, hp⟩ := exists_of_isSome (o := findPeer (mkCtx exS {}).st.peers 3) (by decide +kernel)
+  obtain ⟨i_f, hf⟩ := exists_of_isSome (o := absGet (mkCtx exS {}).st [0x66]) (by decide +kernel)
+  obtain ⟨im, hm⟩ := exists_of_isSome (o := absGet (mkCtx exS {}).st [0x6d]) (by decide +kernel)
+  obtain ⟨is, hs⟩ := exists_of_isSome (o := absGet (mkCtx exS {}).st [0x73]) (by decide +kernel)
+  have h1 : (absGet (mkCtx exS {}).st [0x66]).map (·.fetchOnly) = some true := by decide +kernel
+  have h2 : (absGet (mkCtx exS {}).st [0x6d]).map (fun i => (i.fetchOnly, i.value.isSome)) = some (false, false) := by
+    decide +kernel
+  have h3 : (absGet (mkCtx exS {}).st [0x73]).map (fun i => (i.fetchOnly, i.value.isSome)) = some (false, true) := by
+    decide +kernel
+  rw [hf] at h1
+  rw [hm] at h2
+  rw [hs] at h3
+  have h2 := Prod.mk.inj (Option.some.inj h2)
+  have h3 := Prod.mk.inj (Option.some.inj h3)
+  refine ⟨p, i_f, im, is, hp, exS_wf, mkReq_method _ _, mkReq_method _ _, mkReq_params _ _, mkParams_path _,
+    eq_none_of_isNone (by decide +kernel), hf, Option.some.inj h1, hm, h2.1, by rw [h2.2]; decide,
+    hs, h3.1, by rw [h3.2]; decide⟩
+
 /-- what a refusal looks like to a requester whose request carries a string or number id: exactly
     one new observation, an object with an "error" member sent to the requester -/
 theorem refusal_is_error_response (x x' : Ctx) (c : Nat) (req : Json) (code : Int) (tag : String)
@@ -444,6 +586,11 @@ theorem refusal_is_error_response (x x' : Ctx) (c : Nat) (req : Json) (code : In
   have := h.2
   rw [hj] at this
   exact this
+
+example : answerable (mkReq "set" [0x75]) ∧
+    Refused (mkCtx exS {}) 3 (errorFromRequest (mkReq "set" [0x75]) INVALID_PARAMS "not exists" [0x75])
+      (sendResponse (mkCtx exS {}) 3 (errorFromRequest (mkReq "set" [0x75]) INVALID_PARAMS "not exists" [0x75])).1 :=
+  ⟨mkReq_answerable _ _, refused_sendResponse _ _ _⟩
 
 /-! ## 7. who can change the abstraction -/
 
@@ -478,6 +625,11 @@ theorem step_elems_only_by_requester_or_close (cfg : Config) (s : State) (op : O
   | connect c ws isLocal addr => exact (step_connect hs).2
   | timerFire t o => exact absElems_of_store_eq step_timerFire
 
+/-- non-vacuity: in `exS`, a garbage message of peer 1 drops it (its two elements vanish, peer 2's stays) -/
+example : WF exS ∧ findPeer (step {} exS (.message 1 none {})).1.peers 1 = none ∧
+    (absElems (step {} exS (.message 1 none {})).1).map (·.1) = [[0x66]] :=
+  ⟨exS_wf, eq_none_of_isNone (by decide +kernel), by decide +kernel⟩
+
 /-- step-level form of `error_means_unchanged` for an object message: if the step did not drop the
     requester and some output of the step is an error object, the abstraction is unchanged -/
 theorem error_means_unchanged_step (cfg : Config) (s : State) (c : Nat) (l : List (Bytes × Json)) (o : Oracle)
@@ -504,5 +656,12 @@ theorem error_means_unchanged_step (cfg : Config) (s : State) (c : Nat) (l : Lis
       have hw := (parseJsonRpc_own cfg (mkCtx s o) c (.obj l) hs).wfs
       rw [findPeer_closePeer hw] at hlive
       cases hlive
+
+/-- non-vacuity: peer 3's `remove` of an unknown path, as a whole step -/
+example : WF exS ∧
+    (findPeer (step {} exS (.message 3 (some (mkReq "remove" [0x75])) {})).1.peers 3).isSome = true ∧
+    ∃ c' j b, Obs.send c' j b ∈ (step {} exS (.message 3 (some (mkReq "remove" [0x75])) {})).2 ∧
+      (j.getItem (k "error")).isSome = true :=
+  ⟨exS_wf, by decide +kernel, exists_errSend_of_any (by decide +kernel)⟩
 
 end Cjet.Daemon.C04
